@@ -3,6 +3,7 @@ C16 — v-once emits each marked element exactly once per render, independently.
 Model: the check at the top of `evaluate` (eval_core.go), assignSeenAttrs (vue.go), the `seen` set shared along the include chain.
 -/
 import Vuego.Lemmas.EvalInv
+import Vuego.Lemmas.OnceMarks
 import Vuego.Generated.Purity
 namespace Vuego.Props.C16
 open Go Vuego
@@ -46,6 +47,39 @@ theorem once_marks_seen (W : World) (f : Nat) (ctx : Ctx) (st st' : St) (tag : S
   simp only [evalList, hh, hc, Bool.and_false, Bool.false_eq_true, ↓reduceIte, hpre] at h
   obtain ⟨o, ho, _⟩ := prepend_ok h
   exact seen_only_grows W f ctx { st with seen := st.seen ++ [getAttr attrs (S "v-once-id")] } st' rest o hs ho _ (by simp)
+
+/-- (2b) THE SAME FOR EVERY ELEMENT THE TEST APPLIES TO - plain, `<slot>`, `<template>`, `v-pre` - and whatever the element, its children and
+    the siblings after it go on to do: once the evaluation of a sibling list that starts with a marked element returns, the element's id is
+    in `seen` (it was there already, or this visit recorded it and nothing ever removes an id) -/
+theorem once_marks_seen_every_element (W : World) (f : Nat) (ctx : Ctx) (st st' : St) (tag : Str) (attrs : List Attr) (kids rest out : List Node)
+    (hh : onceHereOf attrs = true) (hs : st.stack.scopes ≠ [])
+    (h : evalList W (f + 1) ctx st (.elem tag attrs kids :: rest) = .ok (out, st')) :
+    getAttr attrs (S "v-once-id") ∈ st'.seen := by
+  cases hc : st.seen.contains (getAttr attrs (S "v-once-id")) with
+  | true => exact seen_only_grows W (f + 1) ctx st st' _ out hs h _ (by simpa using hc)
+  | false => exact (frame_after_once_mark W f ctx st st' tag attrs kids rest out hh hc hs h).2 _ (by simp)
+
+/-- the premises are met: a marked `v-pre` element, any world, any context - its first visit returns and records the id -/
+example (W : World) (ctx : Ctx) (stack : Stack) :
+    onceHereOf [(S "v-once", []), (S "v-once-id", S "p#1"), (S "v-pre", [])] = true ∧
+    ∃ out st', evalList W 2 ctx { stack := stack, seen := [] } [.elem (S "i") [(S "v-once", []), (S "v-once-id", S "p#1"), (S "v-pre", [])] []] = .ok (out, st') ∧ S "p#1" ∈ st'.seen :=
+  by
+  have hh : onceHereOf [(S "v-once", []), (S "v-once-id", S "p#1"), (S "v-pre", [])] = true := by decide
+  have hg : getAttr [(S "v-once", []), (S "v-once-id", S "p#1"), (S "v-pre", [])] (S "v-once-id") = S "p#1" := by decide
+  refine ⟨hh, _, _, rfl, ?_⟩
+  simp only [hh, ↓reduceIte, hg]
+  simp
+
+/-- (2c) EXACTLY ONCE: after a visit of a marked element has returned, EVERY later visit of that element in the same render - in any state
+    that descends from the returned one (`seen` only grows), with any fuel, in any context, before any siblings - emits nothing for it -/
+theorem once_second_visit_skips (W : World) (f g : Nat) (ctx ctx2 : Ctx) (st st' st'' : St) (tag : Str) (attrs : List Attr) (kids rest rest2 out : List Node)
+    (hh : onceHereOf attrs = true) (hs : st.stack.scopes ≠ [])
+    (h : evalList W (f + 1) ctx st (.elem tag attrs kids :: rest) = .ok (out, st'))
+    (hlater : ∀ x ∈ st'.seen, x ∈ st''.seen) :
+    evalList W (g + 1) ctx2 st'' (.elem tag attrs kids :: rest2) = evalList W g ctx2 st'' rest2 := by
+  have hin := hlater _ (once_marks_seen_every_element W f ctx st st' tag attrs kids rest out hh hs h)
+  have : st''.seen.contains (getAttr attrs (S "v-once-id")) = true := by simpa using hin
+  simp only [evalList, hh, Bool.true_and, this, ↓reduceIte]
 
 /-- (3) every render starts afresh: the evaluation of a page begins with an empty `seen` set -/
 theorem fresh_per_render (W : World) (fuel : Nat) (file : Str) (dom : List Node) (stack : Stack) :
